@@ -94,11 +94,12 @@ class Ctx:
         self.solver.add(c)
 
     def decide(self, cond):
-        cond = z3.simplify(cond)
-        if z3.is_true(cond):
+        sc = z3.simplify(cond)
+        if z3.is_true(sc):
             return True
-        if z3.is_false(cond):
+        if z3.is_false(sc):
             return False
+        # the ORIGINAL condition is kept in the path condition (its sub-terms stay recognisable for `generalise`)
         if self.pos < len(self.prefix):
             d = self.prefix[self.pos]
         else:
@@ -263,11 +264,19 @@ class Ctx:
             # input region of the property's quantifier that is reported separately (known-finding matching)
             clause, meta = '[%s]/%s' % (self.region, clause), dict(meta, region=self.region)
         if self.mode == 'conc':
+            meta.pop('nopc', None)
+            meta.pop('hyps', None)
             ok = truth(goal) if not extra or all(truth(e) for e in extra) else True
             self.conc_results.append((clause, kind, bool(ok), meta))
             return
         goal = tobool(goal)
-        pc = list(self.pc) + list(self.guards) + [tobool(e) for e in extra]
+        if meta.pop('nopc', False):
+            # a closed claim over generalised (fresh) variables: proved from the given hypotheses only (hence under any
+            # path condition); a counterexample is a value of the generalised variable, not an input
+            pc = [tobool(e) for e in extra] + [tobool(e) for e in meta.pop('hyps', [])]
+            meta['generalised'] = True
+        else:
+            pc = list(self.pc) + list(self.guards) + [tobool(e) for e in extra]
         key = (clause, tuple(c.get_id() for c in pc), goal.get_id())
         if key in self.seen:
             return
@@ -278,6 +287,19 @@ class Ctx:
     def note(self, text):
         if text not in self.notes:
             self.notes.append(text)
+
+
+def generalise(c, term, formula, name='generalised'):
+    """Generalise the (heavy) term occurring in `formula` to a fresh variable x.  Returns (goal[x], hypotheses[x]) where the
+    hypotheses are exactly the path-condition conjuncts that mention the term, with the term replaced by x.
+    Proving  forall x. hyps[x] => goal[x]  proves the original obligation (instantiate x := term; the hyps are in the pc)."""
+    x = c.fresh(name, term.sort())
+    hyps = []
+    for p in list(c.pc) + list(c.guards):
+        q = z3.substitute(p, (term, x))
+        if not q.eq(p):
+            hyps.append(q)
+    return z3.substitute(formula, (term, x)), hyps
 
 
 _CTX = [None]
